@@ -907,7 +907,7 @@ def c03_dormant(ctx):
         e = result_edges(body, fetch.bb)
         none_edge = edge_for(e, OPTION, 'None') if e else None
     key = 'thread-body|dormant-on-none'
-    guards_fetch = frozenset(l for l in H.at_term.get(fetch.bb, frozenset()) if H.guards[l] == 'thread.busy')
+    guards_fetch = H.holds_at_term(fetch.bb, 'thread.busy')
     if not writes:
         out.append(bad(R, key, 'the pool thread never clears its busy flag: it can never be given work again', fn=body.name))
     elif none_edge is None:
@@ -915,7 +915,7 @@ def c03_dormant(ctx):
     else:
         badw = []
         for (bb, i) in writes:
-            same = frozenset(l for l in H.before.get((bb, i), frozenset()) if H.guards[l] == 'thread.busy') & guards_fetch
+            same = H.holds_before(bb, i, 'thread.busy') & guards_fetch
             if not edom(body, none_edge, bb) or not same:
                 badw.append((bb, i))
         if badw:
@@ -965,13 +965,13 @@ def c03_dormant(ctx):
     if len(sets) != 1 or len(runs) != 1:
         out.append(bad(R, key, 'schedule_dormant must mark the thread busy and hand it the work exactly once (found %d/%d)' % (len(sets), len(runs)), fn=sd.name))
     else:
-        gs = frozenset(l for l in Hs.before.get(sets[0], frozenset()) if Hs.guards[l] == 'thread.busy')
-        gr = frozenset(l for l in Hs.at_term.get(runs[0][0], frozenset()) if Hs.guards[l] == 'thread.busy')
+        gs = Hs.holds_before(sets[0][0], sets[0][1], 'thread.busy')
+        gr = Hs.holds_at_term(runs[0][0], 'thread.busy')
         # the flag is read (copy of *guard) under the same guard before the set
         reads = []
         for bb, b in enumerate(sd.blocks):
             for i, s in enumerate(b['stmts']):
-                if s['k'] == 'assign' and s['rv']['k'] == 'use' and s['rv']['op']['k'] == 'copy' and clean_ty(s['rv']['op']['pl']['ty']) == 'bool' and s['rv']['op']['pl']['p'] and (frozenset(l for l in Hs.before.get((bb, i), frozenset()) if Hs.guards[l] == 'thread.busy') & gs):
+                if s['k'] == 'assign' and s['rv']['k'] == 'use' and s['rv']['op']['k'] == 'copy' and clean_ty(s['rv']['op']['pl']['ty']) == 'bool' and s['rv']['op']['pl']['p'] and (Hs.holds_before(bb, i, 'thread.busy') & gs):
                     if dominates(sd, bb, sets[0][0]):
                         reads.append((bb, i))
         if gs and (gs & gr) and reads:
@@ -1373,7 +1373,7 @@ def c17(ctx):
                     if _has_arith(fn.expr_of_operand(s['rv']['a'])) or _has_arith(fn.expr_of_operand(s['rv']['b'])):
                         adjusted = True
                         continue
-                    same_guard = frozenset(l for l in H.before.get((b2, len(blk['stmts'])), frozenset()) if H.guards[l] == 'SchedulerCore.threads') & frozenset(l for l in H.at_term.get(bb, frozenset()) if H.guards[l] == 'SchedulerCore.threads')
+                    same_guard = H.holds_before(b2, len(blk['stmts']), 'SchedulerCore.threads') & H.holds_at_term(bb, 'SchedulerCore.threads')
                     true_edge = tt['otherwise']
                     false_edge = dict((str(v), b3) for v, b3 in tt['targets']).get('0')
                     # the edge on which the comparison says "room for one more"
